@@ -210,3 +210,31 @@ fn c15r_pipeline_witness() {
     core::mem::forget((a, b));
     assert!(false);
 }
+
+/// every category x expansion 0..9 x chunk 0..9 x data file 0..7 (all symbolic), one platform per harness
+fn filenames_all(plat_i: u8) {
+    let cat_i: u8 = kani::any();
+    kani::assume(cat_i < 15);
+    let ex: i32 = kani::any();
+    kani::assume(ex >= 0 && ex <= 9);
+    let chunk: u8 = kani::any();
+    kani::assume(chunk <= 9);
+    let dat: u32 = kani::any();
+    kani::assume(dat <= 7);
+    filenames_case(cat_i, ex, chunk, plat_i, dat);
+}
+#[kani::proof]
+#[kani::unwind(24)]
+fn c15_filenames_all_win32() { filenames_all(0); }
+#[kani::proof]
+#[kani::unwind(24)]
+fn c15_filenames_all_ps3() { filenames_all(1); }
+#[kani::proof]
+#[kani::unwind(24)]
+fn c15_filenames_all_ps4() { filenames_all(2); }
+#[kani::proof]
+#[kani::unwind(24)]
+fn c15_filenames_all_ps5() { filenames_all(3); }
+#[kani::proof]
+#[kani::unwind(24)]
+fn c15_filenames_all_lys() { filenames_all(4); }
